@@ -78,8 +78,8 @@ class Counter:
         self.budget = budget
         old = None
         if wall_s:
-            old = signal.signal(signal.SIGALRM, _on_alarm)
-            signal.setitimer(signal.ITIMER_REAL, wall_s)
+            old = signal.signal(signal.SIGVTALRM, _on_alarm)
+            signal.setitimer(signal.ITIMER_VIRTUAL, wall_s)
         try:
             fn()
             out = None
@@ -91,8 +91,8 @@ class Counter:
             out = type(e).__name__
         finally:
             if wall_s:
-                signal.setitimer(signal.ITIMER_REAL, 0)
-                signal.signal(signal.SIGALRM, old)
+                signal.setitimer(signal.ITIMER_VIRTUAL, 0)
+                signal.signal(signal.SIGVTALRM, old)
         self.budget = 10**12
         return self.count, out
 
